@@ -261,6 +261,7 @@ type Violation struct {
 	Known    string            `json:"known,omitempty"`
 	Stack    []string          `json:"stack,omitempty"`
 	UF       map[string]int    `json:"uf,omitempty"`
+	Shuffles []int             `json:"shuffles,omitempty"`
 }
 
 type Sample struct {
@@ -352,6 +353,7 @@ type Explorer struct {
 	pc       []string
 	choices  []int
 	sched    []int
+	shuffles []int
 	obs      []obsItem
 	events   []string
 	ufApps   []ufApp
@@ -407,6 +409,7 @@ func (e *Explorer) begin(prefix []int) {
 	e.names, e.declLine, e.pc = nil, nil, nil
 	e.choices, e.sched, e.obs, e.events = nil, nil, nil, nil
 	e.ufApps = nil
+	e.shuffles = nil
 	e.violated = false
 	e.steps = 0
 	e.S.send("(push)")
@@ -737,6 +740,7 @@ func (e *Explorer) fillViolation(v *Violation) {
 	v.Trace = append([]int{}, e.trace...)
 	v.Choices = append([]int{}, e.choices...)
 	v.Sched = append([]int{}, e.sched...)
+	v.Shuffles = append([]int{}, e.shuffles...)
 	v.Vars = e.modelVars()
 	v.Events = append([]string{}, e.events...)
 	v.Obs = e.evalObs()
